@@ -172,6 +172,15 @@ func (m *MergeExp) filter(t Type, lookup *TypeLookup) (Exp, error) {
 			}
 		}
 		innerType = t.Elem
+	case *BuiltinType:
+		if t.Id == KindMap && m.MergeOver.CallMode() == ModeMapCall {
+			return m, nil
+		}
+		return m, &IncompatibleTypeError{
+			Message: fmt.Sprintf("unexpected merge expression for %s\n%s",
+				t.TypeId().str(),
+				FormatExp(m, "")),
+		}
 	default:
 		return m, &IncompatibleTypeError{
 			Message: fmt.Sprintf("unexpected merge expression for %s\n%s",
@@ -216,6 +225,15 @@ func (m *MergeExp) FindTypedRefs(list []*BoundReference,
 			}
 		}
 		innerType = t.Elem
+	case *BuiltinType:
+		if t.Id != KindMap || m.MergeOver.CallMode() != ModeMapCall {
+			return list, &IncompatibleTypeError{
+				Message: fmt.Sprintf("unexpected merge expression for %s\n%s",
+					t.TypeId().str(),
+					FormatExp(m, "")),
+			}
+		}
+		innerType = t
 	default:
 		return list, &IncompatibleTypeError{
 			Message: fmt.Sprintf("unexpected merge expression for %s\n%s",
